@@ -167,6 +167,24 @@ def _is_boolish(t):
     return False
 
 
+def series_map(t):
+    """pandas: Series([f(x) for x in S], index=S.index) is S.map(f) (same cells, same labels).  Without the index the result is labelled
+    0..n-1 and a store into the frame aligns it by label - a different table whenever the frame is not labelled 0..n-1: that form is modelled
+    (pandas.Series is in the vocabulary) and deliberately not rewritten."""
+    if head(t) == "call" and strip(t[1]) == ("glob", "pandas.Series"):
+        kw = dict(t[3])
+        data = strip(t[2][0]) if t[2] else strip(kw.get("data")) if kw.get("data") is not None else None
+        idx = kw.get("index")
+        if data is not None and idx is not None and head(data) == "comp" and data[1] == "list" and len(data[3]) == 1 and not data[3][0][1]:
+            ce = data[3][0][0]
+            src = ce[3]
+            if strip(idx) == ("attr", strip(src), "index") or strip_all(idx) == strip_all(("attr", src, "index")):
+                lamid = ("#seriesmap", repr(src)[:40])
+                body = subst(data[2], {ce: ("lparam", lamid, "x")})
+                return ("call", ("attr", src, "map"), (("lam", lamid, (("x", None, "pos"),), body),), ())
+    return t
+
+
 def simplify_idx(e):
     from ..nnabs import simplify
     return simplify(strip_all(e["index"]))
@@ -244,6 +262,9 @@ def run(r):
     pcan = canon_params(s)
     spcan = canon_params(spec)
 
+    from .. import constfold as _cf
+    _cf._module_table.program = r.P
+
     def stores(summ, pc, table_of=None):
         out = {}
         tables = set()
@@ -265,18 +286,20 @@ def run(r):
         rep.require(False, f"C18-COLS: {q}: store into the frame with a column key that does not fold to a constant ({symbolic[0]}); cannot decide")
         for k in symbolic:
             code_st.pop(k)
-    rep.ob("C18-COLS", q, set(code_st) == STD_COLS, "exactly the nine standard columns are rewritten", where_of(r.P, s.func, s.func.node), expected=str(sorted(STD_COLS)), found=str(sorted(code_st)), key="column set")
-    rws = std_rewrites() + [canon_binders]
+    if not symbolic:
+        rep.ob("C18-COLS", q, set(code_st) == STD_COLS, "exactly the nine standard columns are rewritten", where_of(r.P, s.func, s.func.node), expected=str(sorted(STD_COLS)), found=str(sorted(code_st)), key="column set")
+    rws = std_rewrites() + [series_map, canon_binders]
     TABLE = ("unbound", "TABLE")
     for col in sorted(set(code_st) & set(spec_st)):
         for val, obj, e in code_st[col]:
             w = where_of(r.P, s.func, e.node)
             v = subst(val, {obj: TABLE})
             sv = spec_st[col][0][0]
-            eq = Equiv(rewrites=rws, modelled={"pandas.isna"})
+            eq = Equiv(rewrites=rws, modelled={"pandas.isna", "pandas.Series", "shape:comp"})
             check_equiv(rep, "C18-OPT", q, f"column {col}: each cell is None if missing, else the documented tidytcells standardisation with the documented options", v, sv, w, eq=eq, key=f"store {col}")
             # control dependence
-            gl = [(strip_all(subst(g, pcan)), pol) for g, pol in e.ctx.guards]
+            from ..nnabs import lits as _lits
+            gl = [(strip_all(a_), p_) for g, pol in e.ctx.guards for a_, p_ in _lits(strip_all(subst(g, pcan)), pol)]
             std = ("param", f"#{[x[0] for x in s.params].index('standardize')}")
             rep.ob("C18-COLS", q, any(g == std and pol for g, pol in gl), f"column {col} is only touched when standardize is true", w, expected="under `if standardize:`", found="unconditional" if not any(g == std for g, _ in gl) else "ok", key=f"standardize guard {col}")
     # argument errors
